@@ -35,6 +35,26 @@ type HTTPReq struct {
 	URL    string            `json:"url"`
 	Header map[string]string `json:"header,omitempty"`
 	Body   []byte            `json:"body,omitempty"`
+	// SlowBody: the body arrives in two pieces and every read of it is a scheduling point (a client on a real
+	// connection sends its body while other requests are being served).
+	SlowBody bool `json:"slow_body,omitempty"`
+}
+
+// slowBody hands out the body in pieces of at most half its length; every Read is a scheduling point.
+type slowBody struct {
+	b     []byte
+	piece int
+}
+
+func (s *slowBody) Read(p []byte) (int, error) {
+	pt("body.read")
+	if len(s.b) == 0 {
+		return 0, io.EOF
+	}
+	n := min(len(p), s.piece, len(s.b))
+	copy(p, s.b[:n])
+	s.b = s.b[n:]
+	return n, nil
 }
 
 func (r HTTPReq) String() string {
@@ -133,6 +153,9 @@ func (d *Driver) serve(ctx context.Context, r HTTPReq) (resp HTTPResp) {
 	var body io.Reader = http.NoBody // a server-side request always has a non-nil Body
 	if r.Body != nil {
 		body = bytes.NewReader(r.Body)
+		if r.SlowBody {
+			body = &slowBody{b: r.Body, piece: (len(r.Body) + 1) / 2}
+		}
 	}
 	req, err := http.NewRequestWithContext(ctx, r.Method, "http://"+Host+r.URL, body)
 	if err != nil {
